@@ -126,7 +126,7 @@ class Wiretap:
                     # responder answers what it received).  Rewritten responses are judged by whoever rewrote them.
                     if not h['R'] and (h['spi_i'], h['spi_r']) in self.sessions:
                         n0 = len(self.messages)
-                        self._protected(dict(meta), data, h)
+                        self._protected(dict(meta, rewritten=True), data, h)
                         for m in self.messages[n0:]:
                             m['rewritten'] = True
                     continue
@@ -283,6 +283,19 @@ class Wiretap:
                 pos = next((i for i, (x, y) in enumerate(zip(again, raw_inner)) if x != y), min(len(again), len(raw_inner)))
                 self.problem('encoding_differs_from_reference', f'{sender}: encrypted payloads of exchange {h["exch"]} id {h["id"]} differ from the RFC 7296 '
                              f'layout at inner octet {pos} ({[R.PNAMES.get(p["type"], p["type"]) for p in pls]})', meta, where='inner')
+            elif not meta.get('rewritten') and sender in self.w.nodes:
+                # ... and the whole datagram is what the reference encoder makes of the same content, IV and keys (padding to the next block
+                # boundary, zero-filled; Payload Length and header Length accordingly)
+                try:
+                    whole = R.sk_seal({'spi_i': h['spi_i'], 'spi_r': h['spi_r'], 'exch': h['exch'], 'I': h['I'], 'R': h['R'], 'id': h['id']}, pls,
+                                      s.suite, a, e, info['iv'])
+                except Exception:
+                    whole = None
+                self._c('resealed_whole')
+                if whole is not None and whole != bytes(data):
+                    self.problem('encoding_differs_from_reference', f'{sender}: protected exchange {h["exch"]} id {h["id"]} has {len(data)} octets (Pad Length '
+                                 f'{info["pad"]} for {info["plain_len"]} octets of payloads); the reference encoder makes {len(whole)} octets of the same '
+                                 f'content, IV and keys', meta, where='sealed')
         rec = {'t': self.w.now, 'sender': sender, 'h': h, 'payloads': pls, 'raw': bytes(data), 'session': s, 'clear': False, 'info': info,
                'src': meta['src'], 'dst': meta['dst']}
         self.messages.append(rec)
